@@ -2202,7 +2202,22 @@ class Models(object):
         if ord == 'fro' and x.ndim == 2:
             ord = None
         if ord is None and x.ndim <= 2:
-            # Euclidean / Frobenius norm: depends on the multiset of entries only
+            # Euclidean / Frobenius norm: depends on the multiset of entries only, and is homogeneous - a factor common to
+            # every entry (every entry a single monomial carrying the same power of the same atom) comes out as its magnitude
+            items = x.ravel().items()
+            common = None
+            if items and all(isinstance(v, Poly) and len(v.t) == 1 for v in items):
+                for v in items:
+                    (mono, _c), = v.t.items()
+                    d = dict(mono)
+                    common = d if common is None else {a_: e for a_, e in common.items() if d.get(a_) == e}
+                common = {a_: e for a_, e in (common or {}).items() if a_ in ndarr.ATOM_ARGS or a_ in ndarr.POSITIVE_ATOMS}
+            if common:
+                factor = Poly.const(1)
+                for a_, e in sorted(common.items()):
+                    factor = factor * Poly.sym(a_) ** e
+                rest = Arr(x.shape, [v / factor for v in x.items()])
+                return ndarr.s_abs(factor) * self.norm(rest, ord=ord)
             name = 'norm2(%s)' % ', '.join(sorted(repr(v) for v in x.ravel().items()))
         else:
             name = 'norm[ord=%r,ndim=%d](%s)' % (ord, x.ndim, ', '.join(repr(v) for v in x.ravel().items()))
